@@ -128,6 +128,25 @@ theorem rolling_mean_mask_eq_filter (k : Kind) (w minp : Nat) (hw : 0 < w) (rows
   rw [C09.rolling_mean_eq_window k w minp hw rows i r hi hg hs,
     C09.rolling_mean_eq_window k w minp hw (filterSel rows) (rankSel rows i) r hf hg hs, hv]
 
+/-- **rolling max / min**: the same relation -/
+theorem rolling_extremum_mask_eq_filter (k : Kind) (wantMax : Bool) (w minp : Nat) (hw : 0 < w) (hminp : 0 < minp) (rows : List CRow)
+    (hwf : ∀ r ∈ rows, WF k r.val) (i : Nat) (r : CRow)
+    (hi : rows[i]? = some r) (hg : 0 ≤ r.code) (hs : r.sel = true) :
+    (rolling k (if wantMax then .max else .min) w minp rows)[i]? =
+      (rolling k (if wantMax then .max else .min) w minp (filterSel rows))[rankSel rows i]? := by
+  obtain ⟨hf, hv⟩ := filtered_at_rank rows i r hi hs
+  have hwf' : ∀ r ∈ filterSel rows, WF k r.val := fun r hr => hwf r (List.mem_filter.mp hr).1
+  rw [C09.rolling_extremum_eq_window k wantMax w minp hw hminp rows hwf i r hi hg hs,
+    C09.rolling_extremum_eq_window k wantMax w minp hw hminp (filterSel rows) hwf' (rankSel rows i) r hf hg hs, hv]
+
+/-- **shift / diff** (float view): "`window` rows earlier" counts selected rows of the group only -/
+theorem rolling_shift_diff_mask_eq_filter (op : RollOp) (hop : op = .shift ∨ op = .diff) (w minp : Nat) (hw : 0 < w) (rows : List CRow)
+    (i : Nat) (r : CRow) (hi : rows[i]? = some r) (hg : 0 ≤ r.code) (hs : r.sel = true) :
+    (rolling .f op w minp rows)[i]? = (rolling .f op w minp (filterSel rows))[rankSel rows i]? := by
+  obtain ⟨hf, hv⟩ := filtered_at_rank rows i r hi hs
+  rw [C09.rolling_shift_diff_eq_window op hop w minp hw rows i r hi hg hs,
+    C09.rolling_shift_diff_eq_window op hop w minp hw (filterSel rows) (rankSel rows i) r hf hg hs, hv]
+
 /-- non-vacuity -/
 example : rankSel [⟨0, .num 1, true⟩, ⟨0, .num 5, false⟩, ⟨0, .num 2, true⟩] 2 = 1 := by decide
 
